@@ -13,7 +13,7 @@ from . import common
 
 LEVEL = 'other'
 EXPLANATION = (
-    "Static analysis. (R1) dispatch, by folding the evaluator's definitions over mocks: value_of tries opaque first and then value_of_<type> for the four sentence types; value_of_operated sends truth-functional operators to truth_function(oper, *values-of-operands-in-order) with the same keywords, modal ones to the generaliser, and refuses modal operators in non-modal models; _unquantify_values / _unmodal_values visit every constant / accessible world once; atomic/opaque/predicated lookups read the frame stores with the unassigned value as default. (R2) the extracted quantifier and modal generalisers of every logic, on every set of instance values, equal the documented ones (max/min; own disjunction/conjunction fold for K3WQ-family; MH existential, NH universal as in doc/logics; GO through assertion); the generalizers map pairs existential/possibility with disjunction and universal/necessity with conjunction; maxceil/minfloor (folded over all short sequences) are max/min with default. (R3) finish(): complete frames, enforce the access relation, then mark finished; every setter starts with _check_not_finished, every evaluator with _check_finished; _complete_frames (folded) fills every missing atomic/opaque with the unassigned value and aligns frames and R. (R4) the Horn clauses of each Access.enforce equal the frame condition of the class and of the logic using it. Identity/existence completion order-independence is declined. R3 now folds Model.finish() of every logic end to end through the model and access MRO (frames = worlds of the access relation incl. those the frame condition adds, completion, kept values, frame condition); (R5) classical identity completion folded over every order of setting values (known finding F15). R3 also folds every state guard (readers refuse before finish, writers after, with IllegalStateError before anything else); R4 obtains each Access.enforce's frame conditions by folding it on every relation over three worlds and multi-pass shapes. R5 also checks locality: identity facts at one world do not move extensions at another.")
+    "Static analysis. (R1) dispatch, by folding the evaluator's definitions over mocks: value_of tries opaque first and then value_of_<type> for the four sentence types; value_of_operated sends truth-functional operators to truth_function(oper, *values-of-operands-in-order) with the same keywords, modal ones to the generaliser, and refuses modal operators in non-modal models; _unquantify_values / _unmodal_values visit every constant / accessible world once; atomic/opaque/predicated lookups read the frame stores with the unassigned value as default. (R2) the extracted quantifier and modal generalisers of every logic, on every set of instance values, equal the documented ones (max/min; own disjunction/conjunction fold for K3WQ-family; MH existential, NH universal as in doc/logics; GO through assertion); the generalizers map pairs existential/possibility with disjunction and universal/necessity with conjunction; maxceil/minfloor (folded over all short sequences) are max/min with default. (R3) finish(): complete frames, enforce the access relation, then mark finished; every setter starts with _check_not_finished, every evaluator with _check_finished; _complete_frames (folded) fills every missing atomic/opaque with the unassigned value and aligns frames and R. (R4) the Horn clauses of each Access.enforce equal the frame condition of the class and of the logic using it. Identity/existence completion order-independence is declined. R3 now folds Model.finish() of every logic end to end through the model and access MRO (frames = worlds of the access relation incl. those the frame condition adds, completion, kept values, frame condition); (R5) classical identity completion folded over every order of setting values (known finding F15). R3 also folds every state guard (readers refuse before finish, writers after, with IllegalStateError before anything else); R4 obtains each Access.enforce's frame conditions by folding it on every relation over three worlds and multi-pass shapes. R5 also checks locality: identity facts at one world do not move extensions at another. (R6) Model.value_of of every logic folded end to end through its MRO, is_sentence_opaque included (sa.modelfold, shared with C07.R5): a compound is the truth function applied to the values of its operands, atoms, nested compounds and uninterpreted operands alike.")
 TRUSTED = ['CPython ast', 'sa.minieval', 'sa.tables evaluator', 'doc/logics prose transcribed as reference generalisers']
 ASSUMPTIONS = ['quantifier/modal semantics depend on the *set* of instance values only (re-proved by the ACI check of sa.tables)']
 
